@@ -20,6 +20,26 @@
 //! replayed) allows, nor less often; (2) the replay ends within a bound derived from the recorded
 //! lengths (all families); (3) the usual relational comparison with typing the expansion again.
 //!
+//! Deferred play keys (appended family `Deferred`): the same 512 graphs x 3 top-level plays, but the
+//! play keys (and their effect-free twins) fire their play action late: a tap-hold whose tap is the
+//! play action (fires when the release is processed), `(on-release tap-vkey v)` with a virtual key
+//! carrying the play action (two ticks after the release), a tap-dance whose single tap is the play
+//! action (after its timeout). In two thirds of the recordings the play taps come last - every typing
+//! key released before, the recording stopped 1 / 2-3 / 8-12 / 34+ ms after the tap - so that on
+//! replay the play request arrives after the last item of the replayed (nested or played) macro was
+//! emitted: the request is refused exactly if that macro is still being replayed by the model's
+//! reading (self edge, mutual pair, back edge - all reachable "after the last event"), accepted and
+//! replayed once otherwise. Judged like the play graphs (marker counts, termination bound, relational
+//! comparison with the play keys' witness outputs taken out of the ordered comparison); disturbed
+//! variants tap a play key physically 0-12 ticks before the measured end of the judged replay
+//! (upper bounds only) or stop the played macro within 1 ms of its final play tap.
+//!
+//! Open finding in that area (findings/C19-deferred-play-after-replay-end.md): the recursion guard
+//! lives in the replay state, which ends when the last item was handed to the event queue, not when
+//! it was processed. Its two signatures are selected by what is observed in the run (a replay state
+//! ended with events still queued or a decision pending; with a physical play tap: event queue of 3+),
+//! never by the shape of the over-replay itself.
+//!
 //! Timing: with `dynamic-macro-replay-delay-behaviour recorded` kanata runs the recorded pauses
 //! inside one `tick_ms` call, so this check keeps its own stepper that reconstructs kanata's
 //! internal millisecond of every output from the `t:Nms` markers of the simulated output.
@@ -35,6 +55,22 @@ use std::collections::{BTreeMap, BTreeSet};
 
 pub struct C19Check;
 pub static C19: C19Check = C19Check;
+
+/// `replay` (verbose) only: kanata's own log lines about dynamic macros on stderr
+struct MacroLog;
+impl log::Log for MacroLog {
+    fn enabled(&self, _: &log::Metadata) -> bool {
+        true
+    }
+    fn log(&self, r: &log::Record) {
+        let m = format!("{}", r.args());
+        if m.contains("macro") {
+            eprintln!("  kanata log: {m}");
+        }
+    }
+    fn flush(&self) {}
+}
+static MACRO_LOG: MacroLog = MacroLog;
 
 // ------------------------------------------------------------------------------------------------
 // stepper with kanata-internal time
@@ -64,12 +100,25 @@ struct ISim {
     it: u64,
     outs: Vec<IOut>,
     down: BTreeSet<String>,
+    /// more outputs than any case of this check can legitimately produce (an endless replay):
+    /// ticking stops, the case is reported
+    runaway: bool,
+    /// what the replay hands to kanata's event queue is processed later than it is handed over:
+    /// longest event queue seen at the end of a tick, ...
+    max_queue: usize,
+    /// ... and how often a replay state ended while the queue still held events or a tap-hold /
+    /// tap-dance decision was pending
+    ended_with_pending: u32,
+    was_running: bool,
 }
+
+/// far above what the longest history of this check produces (counter `max_outputs_in_one_run`: below 1 000)
+const RUNAWAY_OUTPUTS: usize = 6_000;
 
 impl ISim {
     fn new(cfg: &str) -> Result<ISim, String> {
         match Kanata::new_from_str(cfg, Default::default()) {
-            Ok(k) => Ok(ISim { k, it: 0, outs: vec![], down: BTreeSet::new() }),
+            Ok(k) => Ok(ISim { k, it: 0, outs: vec![], down: BTreeSet::new(), runaway: false, max_queue: 0, ended_with_pending: 0, was_running: false }),
             Err(e) => Err(format!("{e}")),
         }
     }
@@ -109,8 +158,24 @@ impl ISim {
     }
     fn tick(&mut self, n: u64) {
         for _ in 0..n {
+            if self.runaway {
+                return;
+            }
             self.k.tick_ms(1, &None).expect("harness: tick_ms returned Err");
             self.drain();
+            if self.outs.len() > RUNAWAY_OUTPUTS {
+                self.runaway = true;
+            }
+            let running = self.k.dynamic_macro_replay_state.is_some();
+            let (q, waiting) = {
+                let l = self.k.layout.b();
+                (l.queue.len(), l.waiting.is_some())
+            };
+            self.max_queue = self.max_queue.max(q);
+            if self.was_running && !running && (q > 0 || waiting) {
+                self.ended_with_pending += 1;
+            }
+            self.was_running = running;
         }
     }
     fn run(&mut self, h: &[Ev]) {
@@ -144,6 +209,45 @@ const MARKER: &[&str] = &["j", "k", "l"];
 const MARKER_OUT: &[&str] = &["f19", "f20", "f21"];
 /// play-graph family: 2^9 adjacency matrices (macro i contains a tap of play key j) x 3 top-level plays
 const GRAPHS: u64 = 512 * 3;
+/// deferred-play family: virtual keys carrying the play actions (`on-release tap-vkey`)
+const VKEY_PLAY: &[&str] = &["vp0", "vp1", "vp2"];
+const VKEY_DUMMY: &[&str] = &["vd0", "vd1", "vd2"];
+
+/// how the play keys (and the effect-free keys of the same shape) fire their play action
+#[derive(Clone, Copy, Debug, PartialEq, Eq)]
+enum PlayShape {
+    /// `(dynamic-macro-play i)`: fires when the press is processed
+    Plain,
+    /// `(tap-hold R T (dynamic-macro-play i) XX)`: a tap fires it when the release is processed
+    TapHold,
+    /// `(on-release tap-vkey vpi)` with `vpi` = `(dynamic-macro-play i)`: fires two ticks after the release
+    Vkey,
+    /// `(tap-dance T ((dynamic-macro-play i) XX))`: a single tap fires it T ms after the press
+    TapDance,
+}
+
+impl PlayShape {
+    fn name(self) -> &'static str {
+        match self {
+            PlayShape::Plain => "plain",
+            PlayShape::TapHold => "tap-hold-tap",
+            PlayShape::Vkey => "on-release-vkey",
+            PlayShape::TapDance => "tap-dance",
+        }
+    }
+    fn on_release(self) -> bool {
+        self != PlayShape::Plain
+    }
+    /// ticks between the processing of the last replayed event of a tap and the play request
+    /// (lower estimate; used only to class a recording as 'play fires after the replay state is gone')
+    fn latency(self, t: u32) -> u32 {
+        match self {
+            PlayShape::Plain | PlayShape::TapHold => 1,
+            PlayShape::Vkey => 2,
+            PlayShape::TapDance => t.saturating_sub(10),
+        }
+    }
+}
 
 #[derive(Clone, Copy, Debug, PartialEq, Eq)]
 enum Kind {
@@ -158,6 +262,10 @@ enum Kind {
     LateStop,
     /// systematic nested play graphs over the three macros (cases appended after the random families)
     Graph,
+    /// play graphs whose play keys fire on release / after a delay (tap-hold tap, on-release virtual
+    /// key, tap-dance), with the play taps as the last thing recorded in a forced share of the
+    /// recordings: the play request arrives after the last item of a (nested) replay was emitted
+    Deferred,
 }
 
 /// number of cases of the random families; the play-graph family follows
@@ -174,8 +282,18 @@ fn graph_cases(ctx: &Ctx) -> u64 {
     GRAPHS * ctx.tier.sel(4, 24)
 }
 
+/// deferred-play cases: every graph x top-level play x variant. Variant v mod 8: 0/1 tap-hold tap
+/// (constant / recorded), 2/3 on-release virtual key, 4/5 tap-dance, 6 (constant) and 7 (recorded)
+/// seeded shape with disturbances (a play key tapped physically around the end of the judged replay;
+/// 7: the played macro stopped within 1 ms of its final play tap).
+fn deferred_cases(ctx: &Ctx) -> u64 {
+    GRAPHS * ctx.tier.sel(8, 48)
+}
+
 fn kind_of_case(ctx: &Ctx, idx: u64) -> Kind {
-    if idx >= base_cases(ctx) {
+    if idx >= base_cases(ctx) + graph_cases(ctx) {
+        Kind::Deferred
+    } else if idx >= base_cases(ctx) {
         Kind::Graph
     } else {
         kind_of(idx)
@@ -206,6 +324,12 @@ struct Cfg {
     max_timeout: u32,
     /// shapes used (for tags)
     shapes: BTreeSet<&'static str>,
+    /// how the play keys fire (everything but the deferred family: `Plain`)
+    play_shape: PlayShape,
+    /// timeout written in the play keys' tap-hold / tap-dance
+    play_t: u32,
+    /// tap-repress timeout written in the play keys' tap-hold (0: a tap is always decided at its release)
+    play_repress: u32,
 }
 
 fn insensitive_action(rng: &mut Rng, shapes: &mut BTreeSet<&'static str>) -> String {
@@ -266,7 +390,23 @@ fn sensitive_action(rng: &mut Rng, shapes: &mut BTreeSet<&'static str>, t: u32) 
     }
 }
 
-fn make_cfg(rng: &mut Rng, kind: Kind, force_recorded: Option<bool>) -> Cfg {
+/// the action of a play key (or of its effect-free twin) of macro id `id` in the given shape;
+/// `w`: witness key pressed together with the play action
+fn play_action(shape: PlayShape, id: usize, vkey: &str, w: Option<&str>, t: u32, repress: u32) -> String {
+    let play = format!("(dynamic-macro-play {id})");
+    let with_w = |a: String| match w {
+        Some(w) => format!("(multi {w} {a})"),
+        None => a,
+    };
+    match shape {
+        PlayShape::Plain => with_w(play),
+        PlayShape::TapHold => format!("(tap-hold {repress} {t} {} XX)", with_w(play)),
+        PlayShape::Vkey => with_w(format!("(on-release tap-vkey {vkey})")),
+        PlayShape::TapDance => format!("(tap-dance {t} ({} XX))", with_w(play)),
+    }
+}
+
+fn make_cfg(rng: &mut Rng, kind: Kind, force_recorded: Option<bool>, play_shape: PlayShape) -> Cfg {
     let time_sensitive = kind == Kind::Timed || kind == Kind::LateStop;
     let recorded_delays = if kind == Kind::LateStop {
         true
@@ -320,31 +460,57 @@ fn make_cfg(rng: &mut Rng, kind: Kind, force_recorded: Option<bool>) -> Cfg {
     for (i, k) in REC.iter().enumerate() {
         ctl(k, wrap("f13", format!("(dynamic-macro-record {i})")));
     }
-    for (i, k) in PLAY.iter().enumerate() {
-        ctl(k, wrap(PLAY_WITNESS[i], format!("(dynamic-macro-play {i})")));
-    }
-    for (i, k) in DUMMY.iter().enumerate() {
-        // same shape as the play keys, but the macro ids are never recorded: no effect
-        ctl(k, wrap(PLAY_WITNESS[i], format!("(dynamic-macro-play {})", 100 + i)));
+    let mut play_t = 0;
+    let mut play_repress = 0;
+    let mut vkeys = String::new();
+    if play_shape == PlayShape::Plain {
+        for (i, k) in PLAY.iter().enumerate() {
+            ctl(k, wrap(PLAY_WITNESS[i], format!("(dynamic-macro-play {i})")));
+        }
+        for (i, k) in DUMMY.iter().enumerate() {
+            // same shape as the play keys, but the macro ids are never recorded: no effect
+            ctl(k, wrap(PLAY_WITNESS[i], format!("(dynamic-macro-play {})", 100 + i)));
+        }
+    } else {
+        play_t = match play_shape {
+            PlayShape::TapDance => *rng.pick(&[20u32, 30, 50]),
+            _ => *rng.pick(&[100u32, 200]),
+        };
+        // tap-repress timeout of the tap-hold: mostly 0 (a tap is decided at its release whatever came before)
+        let repress = if rng.chance(3, 4) { 0 } else { play_t };
+        play_repress = if play_shape == PlayShape::TapHold { repress } else { 0 };
+        for (i, k) in PLAY.iter().enumerate() {
+            let w = if witness { Some(PLAY_WITNESS[i]) } else { None };
+            ctl(k, play_action(play_shape, i, VKEY_PLAY[i], w, play_t, repress));
+        }
+        for (i, k) in DUMMY.iter().enumerate() {
+            let w = if witness { Some(PLAY_WITNESS[i]) } else { None };
+            ctl(k, play_action(play_shape, 100 + i, VKEY_DUMMY[i], w, play_t, repress));
+        }
+        if play_shape == PlayShape::Vkey {
+            let defs: Vec<String> = (0..3).map(|i| format!("{} (dynamic-macro-play {i}) {} (dynamic-macro-play {})", VKEY_PLAY[i], VKEY_DUMMY[i], 100 + i)).collect();
+            vkeys = format!("(defvirtualkeys {})\n", defs.join(" "));
+        }
+        shapes.insert(play_shape.name());
     }
     ctl(STOP, wrap("f15", "dynamic-macro-record-stop".to_string()));
     for (i, k) in TRUNC.iter().enumerate() {
         ctl(k, wrap("f16", format!("(dynamic-macro-record-stop-truncate {})", trunc[i])));
     }
-    if kind == Kind::Graph {
+    if kind == Kind::Graph || kind == Kind::Deferred {
         for (i, k) in MARKER.iter().enumerate() {
             ctl(k, MARKER_OUT[i].to_string());
         }
         shapes.insert("marker");
     }
     let text = format!(
-        "(defcfg dynamic-macro-max-presses {max_presses} dynamic-macro-replay-delay-behaviour {})\n(defsrc {})\n(deflayer l0 {})\n(deflayer l1 {})\n",
+        "(defcfg dynamic-macro-max-presses {max_presses} dynamic-macro-replay-delay-behaviour {})\n{vkeys}(defsrc {})\n(deflayer l0 {})\n(deflayer l1 {})\n",
         if recorded_delays { "recorded" } else { "constant" },
         src.join(" "),
         l0.join(" "),
         l1.join(" ")
     );
-    Cfg { text, recorded_delays, max_presses, trunc, time_sensitive, max_timeout: t + 10, shapes }
+    Cfg { text, recorded_delays, max_presses, trunc, time_sensitive, max_timeout: t + 10, shapes, play_shape, play_t, play_repress }
 }
 
 // ------------------------------------------------------------------------------------------------
@@ -533,6 +699,120 @@ struct Case {
     notes: Vec<String>,
     /// play-graph family: the planned graph
     graph: Option<GraphPlan>,
+    /// deferred-play family
+    deferred: Option<DeferredPlan>,
+}
+
+/// one case of the deferred-play family (the graph itself is in `Case::graph`)
+#[derive(Clone, Debug)]
+struct DeferredPlan {
+    shape: PlayShape,
+    /// variants 6 and 7 (mod 8): seeded shape, physical play key around the end of the replay, short pause
+    disturbed: bool,
+    /// macros whose recording ends with a play tap (nothing typed after it, no key left down)
+    tail_play: [bool; 3],
+    /// ticks between the last recorded event and the stop
+    pauses: [u32; 3],
+    /// a play key is tapped physically this many ticks before the end of the judged replay, as
+    /// measured in a run without it (judged by upper bounds only, like `GraphPlan::interrupt`)
+    end_probe: Option<(u32, usize)>,
+    /// ticks between press and release of the judged play key
+    tap_gap: u32,
+}
+
+fn deferred_plan(ctx: &Ctx, idx: u64) -> (GraphPlan, bool, PlayShape, bool) {
+    let g = idx - base_cases(ctx) - graph_cases(ctx);
+    let variant = g / GRAPHS;
+    let r = g % GRAPHS;
+    let top = (r % 3) as usize;
+    let bits = r / 3;
+    let mut adj = [[false; 3]; 3];
+    for i in 0..3 {
+        for j in 0..3 {
+            adj[i][j] = bits >> (3 * i + j) & 1 == 1;
+        }
+    }
+    let v8 = variant % 8;
+    let shape = match v8 {
+        0 | 1 => PlayShape::TapHold,
+        2 | 3 => PlayShape::Vkey,
+        4 | 5 => PlayShape::TapDance,
+        _ => {
+            let mut rng = Rng::for_case(ctx.seed, "C19", "shape", idx);
+            if rng.coin() {
+                PlayShape::TapHold
+            } else {
+                PlayShape::Vkey
+            }
+        }
+    };
+    (GraphPlan { adj, top, clean: v8 < 6, interrupt: None }, v8 % 2 == 1, shape, v8 >= 6)
+}
+
+/// record macro `id` for the deferred-play family: marker tap, then typing interleaved with taps of
+/// the play keys in `targets`; with `tail` the last of these taps is the last thing recorded (every
+/// typing key released before it), and the recording is stopped `pause` ticks after it
+#[allow(clippy::too_many_arguments)]
+fn record_deferred(b: &mut Builder, rng: &mut Rng, cfg: &Cfg, keys: &[u16], id: usize, targets: &[usize], tail: bool, pause: u32, notes: &mut Vec<String>) {
+    let lat = cfg.play_t;
+    if rng.chance(1, 4) {
+        let k_ = 1 + rng.usize(2);
+        b.typing(rng, keys, k_);
+    }
+    b.tick(rng.range(0, 3) as u32 + 8);
+    b.press_record(id);
+    let rc = osc(REC[id]);
+    b.release(rc);
+    b.gap(rng);
+    let mk = osc(MARKER[id]);
+    b.press(mk);
+    b.gap(rng);
+    b.release(mk);
+    b.gap(rng);
+    let tail = tail && !targets.is_empty();
+    for (n, &x) in targets.iter().enumerate() {
+        let last = n + 1 == targets.len();
+        let n_ = rng.usize(3);
+        b.typing(rng, keys, n_);
+        if last && tail {
+            b.release_typing(rng, keys);
+        }
+        // a play key is tapped when nothing is pending, and nothing else happens during the tap
+        b.tick(9);
+        let pc = osc(PLAY[x]);
+        b.press(pc);
+        b.tick(1 + rng.usize(6) as u32);
+        b.release(pc);
+        if last && tail {
+            break;
+        }
+        // the play request fires now: a replay of what is stored right now starts live; let it
+        // finish (replayed tap-hold taps and virtual-key taps delay whatever is typed meanwhile,
+        // also the stop key)
+        let w = if b.stored.contains_key(&x) { ticks_needed_shape(&b.stored, x, lat).min(4000) as u32 } else { 0 };
+        b.tick(w + 9);
+    }
+    if !tail {
+        let n_ = rng.usize(4);
+        b.typing(rng, keys, n_);
+        if rng.coin() {
+            b.release_typing(rng, keys);
+        }
+    }
+    b.tick(pause);
+    if rng.chance(1, 5) {
+        b.press_record(id);
+        notes.push(format!("rec{id}: record key pressed again"));
+    } else {
+        b.press_stop(STOP, 0);
+        notes.push(format!("rec{id}: stop"));
+    }
+    b.tick(2);
+    b.release_all(rng);
+    b.settle();
+    // live replays started by the taps above are over before anything else is recorded
+    let live: u64 = (0..3).map(|m| ticks_needed_shape(&b.stored, m, lat)).sum();
+    b.tick(live.min(6000) as u32);
 }
 
 /// one case of the systematic play-graph family
@@ -641,12 +921,21 @@ fn make_case(ctx: &Ctx, idx: u64) -> Case {
     let mut rng = Rng::for_case(ctx.seed, "C19", "case", idx);
     let mut graph = None;
     let mut force_recorded = None;
+    let mut play_shape = PlayShape::Plain;
+    let mut deferred: Option<DeferredPlan> = None;
     if kind == Kind::Graph {
         let (g, recorded) = graph_plan(ctx, idx);
         graph = Some(g);
         force_recorded = Some(recorded);
     }
-    let cfg = make_cfg(&mut rng, kind, force_recorded);
+    if kind == Kind::Deferred {
+        let (g, recorded, shape, disturbed) = deferred_plan(ctx, idx);
+        graph = Some(g);
+        force_recorded = Some(recorded);
+        play_shape = shape;
+        deferred = Some(DeferredPlan { shape, disturbed, tail_play: [false; 3], pauses: [34; 3], end_probe: None, tap_gap: 3 });
+    }
+    let cfg = make_cfg(&mut rng, kind, force_recorded, play_shape);
     let keys = typing_codes();
     let exact_timing = cfg.time_sensitive;
     // several tap-holds pressed close together are decided one after the other
@@ -885,6 +1174,8 @@ fn make_case(ctx: &Ctx, idx: u64) -> Case {
             let n = n_sec(&mut rng);
             record(&mut b, &mut rng, play_id, n, &mut notes, &[], true);
         }
+        // built after this match (needs the plan and the configuration's play-key shape)
+        Kind::Deferred => {}
         Kind::Graph => {
             let g = graph.as_mut().expect("graph plan");
             play_id = g.top;
@@ -923,6 +1214,90 @@ fn make_case(ctx: &Ctx, idx: u64) -> Case {
             }
         }
     }
+    if kind == Kind::Deferred {
+        let g = graph.as_mut().expect("graph plan");
+        let d = deferred.as_mut().expect("deferred plan");
+        play_id = g.top;
+        let lat = cfg.play_t;
+        let mut order = vec![0usize, 1, 2];
+        rng.shuffle(&mut order);
+        // the played macro stopped within 1 ms of its final play tap (recorded delays only, where the
+        // pause decides how long the finished replay lingers)
+        let short_top = d.disturbed && cfg.recorded_delays && d.shape == PlayShape::Vkey && rng.coin();
+        if d.shape == PlayShape::TapDance || short_top {
+            // the played macro is recorded last: while it is recorded nothing can replay it live
+            order.retain(|m| *m != g.top);
+            order.push(g.top);
+        }
+        for &m in &order {
+            let mut targets = vec![];
+            for j in 0..3 {
+                if g.adj[m][j] {
+                    targets.push(j);
+                    if rng.chance(1, 4) {
+                        targets.push(j);
+                    }
+                }
+            }
+            rng.shuffle(&mut targets);
+            let mut tail = rng.chance(2, 3);
+            if d.shape == PlayShape::TapDance {
+                // a tap-dance fires after its timeout or at the next key press: only one tap, last,
+                // and only in the played macro (with constant pacing a stored macro that ends with
+                // its own tap-dance play tap must not be played live while the others are recorded)
+                targets.truncate(1);
+                tail = true;
+                if m != g.top {
+                    targets.clear();
+                }
+            }
+            if short_top && m == g.top {
+                tail = true;
+            }
+            let tail = tail && !targets.is_empty();
+            // the stop key is pressed when the replay that the final play tap started live (if that
+            // macro is stored by now) is over: replayed events and virtual-key taps share kanata's
+            // event queue with the stop key, which would otherwise be processed late (assumption 1)
+            // (nothing to wait for while that macro is not stored yet, e.g. the macro's own play key)
+            let live = targets.last().filter(|x| b.stored.contains_key(*x)).map(|x| ticks_needed_shape(&b.stored, *x, lat).min(4000) as u32).unwrap_or(0);
+            let pause = if !tail {
+                34
+            } else if d.shape == PlayShape::TapDance {
+                // ... and after the tap-dance has fired
+                lat + 15 + live
+            } else if short_top && m == g.top {
+                // (recorded last: what its final tap plays live is over before the judged play)
+                1
+            } else if d.shape == PlayShape::TapHold {
+                // kanata holds a tap-hold's tap action for some ms and processes later events only
+                // after that: a control key pressed earlier would be processed late (assumption 1)
+                *rng.pick(&[9u32, 12, 34]) + live
+            } else {
+                *rng.pick(&[2u32, 3, 8, 34]) + live
+            };
+            d.tail_play[m] = tail;
+            d.pauses[m] = pause;
+            record_deferred(&mut b, &mut rng, &cfg, &keys, m, &targets, tail, pause, &mut notes);
+        }
+        let adj = g.adj;
+        let edges: Vec<String> = (0..3).flat_map(|i| (0..3).filter(move |j| adj[i][*j]).map(move |j| format!("{i}>{j}"))).collect();
+        notes.push(format!(
+            "deferred play keys ({}): planned edges [{}] top {} recorded in order {:?}; recordings ending with a play tap {:?}, ticks between the last event and the stop {:?}",
+            d.shape.name(),
+            edges.join(" "),
+            g.top,
+            order,
+            d.tail_play,
+            d.pauses
+        ));
+        d.tap_gap = 1 + rng.usize(5) as u32;
+        if d.disturbed && !short_top && rng.chance(3, 4) {
+            let z = rng.usize(3);
+            let k = rng.usize(13) as u32;
+            d.end_probe = Some((k, z));
+            notes.push(format!("deferred: play key {z} tapped physically {k} ticks before the end of the judged replay (as measured without it)"));
+        }
+    }
     // how long a replay can take
     let mut total: u64 = 0;
     for s in b.stored.values() {
@@ -933,6 +1308,10 @@ fn make_case(ctx: &Ctx, idx: u64) -> Case {
         // nested plays repeat stored content: size the wait from the expansions instead
         let need: u64 = (0..3).map(|m| ticks_needed(&b.stored, m)).sum();
         wait = (need + 200).min(20_000) as u32 + settle;
+    }
+    if kind == Kind::Deferred {
+        let need: u64 = (0..3).map(|m| ticks_needed_shape(&b.stored, m, cfg.play_t)).sum();
+        wait = (need + 200 + 4 * cfg.play_t as u64).min(20_000) as u32 + settle;
     }
     // replays started while recording must be over before the judged play
     b.tick(wait);
@@ -952,7 +1331,7 @@ fn make_case(ctx: &Ctx, idx: u64) -> Case {
         held_at_play = ks;
         notes.push("keys held while playing".into());
     }
-    Case { kind, cfg, prefix: b.h, play_id, stored: b.stored, wait, held_at_play, notes, graph }
+    Case { kind, cfg, prefix: b.h, play_id, stored: b.stored, wait, held_at_play, notes, graph, deferred }
 }
 
 fn play_code(id: usize) -> u16 {
@@ -998,6 +1377,12 @@ struct FlatStats {
     refusals: Vec<(Refusal, usize)>,
     /// play presses of macros that were never stored (nothing to replay)
     plays_of_nothing: u32,
+    /// length of the typed expansion at the moment of each refusal (a refusal at the very end of
+    /// the expansion is a play request that arrives after the last replayed event)
+    refusal_at: Vec<usize>,
+    /// a play key's release without its press in the same recording, or a play key left down at a
+    /// nested macro's stop (deferred shapes: whether that fires is a matter of timing)
+    unpaired_play_release: bool,
 }
 
 impl FlatStats {
@@ -1008,7 +1393,7 @@ impl FlatStats {
 
 /// what typing the recorded macro again means: nested plays expanded in place (a macro never plays
 /// itself), play keys replaced by the effect-free keys of the same shape
-fn flatten(stored: &BTreeMap<usize, Stored>, id: usize, cut: Option<usize>, active: &mut Vec<usize>, out: &mut Vec<Typed>, order_known: &mut bool, depth: usize, fs: &mut FlatStats) {
+fn flatten(stored: &BTreeMap<usize, Stored>, id: usize, cut: Option<usize>, active: &mut Vec<usize>, out: &mut Vec<Typed>, order_known: &mut bool, depth: usize, fs: &mut FlatStats, on_release: bool) {
     let Some(st) = stored.get(&id) else { return };
     fs.max_depth = fs.max_depth.max(depth);
     *fs.instances.entry(id).or_insert(0) += 1;
@@ -1016,11 +1401,27 @@ fn flatten(stored: &BTreeMap<usize, Stored>, id: usize, cut: Option<usize>, acti
         Some(n) => &st.evs[..n.min(st.evs.len())],
         None => &st.evs,
     };
+    // deferred shapes: play keys pressed in this recording and not yet released
+    let mut pressed_play: Vec<usize> = vec![];
     for e in evs {
         match is_play_key(e.code) {
             Some(x) => {
                 out.push(Typed { press: e.press, code: osc(DUMMY[x]), gap: e.gap });
-                if e.press {
+                let fires = if !on_release {
+                    e.press
+                } else if e.press {
+                    if !pressed_play.contains(&x) {
+                        pressed_play.push(x);
+                    }
+                    false
+                } else if pressed_play.contains(&x) {
+                    pressed_play.retain(|p| *p != x);
+                    true
+                } else {
+                    fs.unpaired_play_release = true;
+                    false
+                };
+                if fires {
                     if !stored.contains_key(&x) {
                         fs.plays_of_nothing += 1;
                     } else if active.contains(&x) {
@@ -1036,15 +1437,19 @@ fn flatten(stored: &BTreeMap<usize, Stored>, id: usize, cut: Option<usize>, acti
                             Refusal::BackToNestedAncestor
                         };
                         fs.refusals.push((class, x));
+                        fs.refusal_at.push(out.len());
                     } else {
                         active.push(x);
-                        flatten(stored, x, None, active, out, order_known, depth + 1, fs);
+                        flatten(stored, x, None, active, out, order_known, depth + 1, fs, on_release);
                         active.pop();
                     }
                 }
             }
             None => out.push(Typed { press: e.press, code: e.code, gap: e.gap }),
         }
+    }
+    if on_release && !pressed_play.is_empty() {
+        fs.unpaired_play_release = true;
     }
     if depth > 0 {
         let tail = if cut.is_some() { unreleased(evs) } else { st.tail.clone() };
@@ -1063,11 +1468,33 @@ fn flatten(stored: &BTreeMap<usize, Stored>, id: usize, cut: Option<usize>, acti
 
 /// the model's expansion of pressing play key `id` while nothing else is replayed
 fn expand(stored: &BTreeMap<usize, Stored>, id: usize) -> (Vec<Typed>, FlatStats) {
+    expand_shape(stored, id, false)
+}
+
+/// `on_release`: the play keys fire when their release is processed (deferred-play family)
+fn expand_shape(stored: &BTreeMap<usize, Stored>, id: usize, on_release: bool) -> (Vec<Typed>, FlatStats) {
     let mut typed = vec![];
     let mut ok = true;
     let mut fs = FlatStats::default();
-    flatten(stored, id, None, &mut vec![id], &mut typed, &mut ok, 0, &mut fs);
+    flatten(stored, id, None, &mut vec![id], &mut typed, &mut ok, 0, &mut fs, on_release);
     (typed, fs)
+}
+
+/// deferred-play family: like `ticks_needed` / `replay_bound`, plus the firing delay `lat` of the
+/// play keys' shape once per replayed macro and per refused or empty play request
+fn ticks_needed_shape(stored: &BTreeMap<usize, Stored>, id: usize, lat: u32) -> u64 {
+    let (typed, fs) = expand_shape(stored, id, true);
+    let top_tail = stored.get(&id).map(|s| unreleased(&s.evs).len()).unwrap_or(0) as u64;
+    let fired = fs.total_instances() as u64 + fs.refusals.len() as u64 + fs.plays_of_nothing as u64 + 1;
+    6 * (typed.len() as u64 + top_tail + fs.total_instances() as u64) + fired * (lat as u64 + 8) + 30
+}
+
+fn replay_bound_shape(stored: &BTreeMap<usize, Stored>, id: usize, lat: u32) -> u64 {
+    let (typed, fs) = expand_shape(stored, id, true);
+    let top_tail = stored.get(&id).map(|s| unreleased(&s.evs).len()).unwrap_or(0) as u64;
+    let gaps: u64 = typed.iter().map(|t| t.gap as u64).sum();
+    let fired = fs.total_instances() as u64 + fs.refusals.len() as u64 + fs.plays_of_nothing as u64 + 1;
+    6 * (typed.len() as u64 + top_tail + fs.total_instances() as u64) + gaps + fired * (lat as u64 + 8) + 100
 }
 
 /// Upper bound (in 1 ms ticks) for a replay, derived from the recorded lengths only: every replayed
@@ -1091,6 +1518,32 @@ fn marker_presses(typed: &[Typed]) -> [u32; 3] {
         }
     }
     n
+}
+
+/// Deferred-play family: the macros among `fs.instances` whose recording ends with the release of a
+/// play key (nothing left down) and whose play request, by the harness's bookkeeping, fires only
+/// after the finished replay's state has gone: the pause recorded after that release (`recorded`
+/// delays; at least 1 ms) or the constant pacing (5 ms) is shorter than the firing delay of the
+/// play keys' shape. What happens then is the open finding C19-deferred-play-after-replay-end.
+fn late_tail_macros(case: &Case, ids: &[usize]) -> Vec<usize> {
+    let shape = case.cfg.play_shape;
+    let lat = shape.latency(case.cfg.play_t);
+    let mut v = vec![];
+    for m in ids {
+        let Some(st) = case.stored.get(m) else { continue };
+        if !st.tail.is_empty() {
+            continue;
+        }
+        let Some(last) = st.evs.last() else { continue };
+        if last.press || is_play_key(last.code).is_none() {
+            continue;
+        }
+        let linger = if case.cfg.recorded_delays { last.gap.max(1) } else { 5 };
+        if linger < lat {
+            v.push(*m);
+        }
+    }
+    v
 }
 
 struct Verdict {
@@ -1118,7 +1571,7 @@ fn compare(case: &Case, cut: Option<usize>, replay: &[IOut], replay_anchor_len: 
     let mut order_known = true;
     let mut active = vec![case.play_id];
     let mut fs = FlatStats::default();
-    flatten(&case.stored, case.play_id, cut, &mut active, &mut typed, &mut order_known, 0, &mut fs);
+    flatten(&case.stored, case.play_id, cut, &mut active, &mut typed, &mut order_known, 0, &mut fs, case.cfg.play_shape.on_release());
     let st = case.stored.get(&case.play_id);
     let tail: Vec<u16> = match (st, cut) {
         (Some(s), Some(n)) => unreleased(&s.evs[..n.min(s.evs.len())]),
@@ -1132,7 +1585,14 @@ fn compare(case: &Case, cut: Option<usize>, replay: &[IOut], replay_anchor_len: 
     }
     let dummy = osc(DUMMY[case.play_id]);
     tw.event(dummy, KeyValue::Press);
-    tw.tick(1);
+    if let Some(d) = &case.deferred {
+        // the effect-free key of the same shape is tapped like the play key
+        tw.tick(d.tap_gap as u64);
+        tw.event(dummy, KeyValue::Release);
+        tw.tick(10);
+    } else {
+        tw.tick(1);
+    }
     for (i, e) in typed.iter().enumerate() {
         tw.event(e.code, if e.press { KeyValue::Press } else { KeyValue::Release });
         let g = if exact {
@@ -1142,6 +1602,10 @@ fn compare(case: &Case, cut: Option<usize>, replay: &[IOut], replay_anchor_len: 
         } else {
             e.gap.min(3)
         };
+        // deferred play keys: the replay continues 5+ ms after a play key's release (pacing, nested
+        // macro boundary); typing on while the twin key's virtual-key tap is still in kanata's event
+        // queue is a different history
+        let g = if case.deferred.is_some() && !e.press && DUMMY.iter().any(|d| osc(d) == e.code) { g.max(8) } else { g };
         tw.tick(g as u64);
     }
     if !exact {
@@ -1157,17 +1621,40 @@ fn compare(case: &Case, cut: Option<usize>, replay: &[IOut], replay_anchor_len: 
         tw.tick(1);
     }
     tw.tick(case.wait as u64);
-    tw.event(dummy, KeyValue::Release);
+    if case.deferred.is_none() {
+        tw.event(dummy, KeyValue::Release);
+    }
     tw.tick(case.cfg.max_timeout as u64 + 60);
     for c in &case.held_at_play {
         tw.event(*c, KeyValue::Release);
         tw.tick(1);
     }
     tw.tick(case.cfg.max_timeout as u64 + 60);
-    let twin: Vec<IOut> = tw.outs[replay_anchor_len..].to_vec();
+    let mut twin: Vec<IOut> = tw.outs[replay_anchor_len..].to_vec();
     // compare
     let mut sig = None;
-    if !order_known {
+    let mut body_len = body_len;
+    let replay_filtered: Vec<IOut>;
+    let mut replay = replay;
+    if case.deferred.is_some() {
+        // deferred play keys: when the play key's own witness output comes out relative to the
+        // replayed events that follow is a matter of a few ms of pacing, so the witness keys are
+        // compared by number and taken out of the ordered comparison
+        let is_w = |o: &IOut| !o.other && PLAY_WITNESS.iter().any(|w| code_name(osc(w)) == o.name);
+        let n_r = replay.iter().filter(|o| is_w(o)).count();
+        let n_t = twin.iter().filter(|o| is_w(o)).count();
+        // (with a tap-repress timeout a second tap soon after the first holds the tap action from the
+        // press on, and the witness presses of two taps can overlap: not counted then)
+        if n_r != n_t && case.cfg.play_repress == 0 {
+            sig = Some(("C19:replay-differs:keys".to_string(), format!("the play keys' witness outputs occur {n_r} times in the replay and {n_t} times when the recording is typed again")));
+        }
+        body_len = twin[..body_len.min(twin.len())].iter().filter(|o| !is_w(o)).count();
+        twin.retain(|o| !is_w(o));
+        replay_filtered = replay.iter().filter(|o| !is_w(o)).cloned().collect();
+        replay = &replay_filtered;
+    }
+    if sig.is_some() {
+    } else if !order_known {
         if multiset(replay) != multiset(&twin) {
             sig = Some(("C19:replay-differs:keys".to_string(), "the replay does not press/release the same keys as typing the recording again (nested tail order unknown, compared as a multiset)".to_string()));
         }
@@ -1199,8 +1686,14 @@ fn compare(case: &Case, cut: Option<usize>, replay: &[IOut], replay_anchor_len: 
 fn witness(case: &Case, v: Option<&Verdict>, extra: Value) -> Value {
     let mut full = case.prefix.clone();
     full.push(Ev::P(play_code(case.play_id)));
-    full.push(Ev::T(case.wait));
-    full.push(Ev::R(play_code(case.play_id)));
+    if let Some(d) = &case.deferred {
+        full.push(Ev::T(d.tap_gap));
+        full.push(Ev::R(play_code(case.play_id)));
+        full.push(Ev::T(case.wait));
+    } else {
+        full.push(Ev::T(case.wait));
+        full.push(Ev::R(play_code(case.play_id)));
+    }
     json!({
         "config": case.cfg.text,
         "kind": format!("{:?}", case.kind),
@@ -1220,7 +1713,7 @@ impl Check for C19Check {
         "C19"
     }
     fn n_cases(&self, ctx: &Ctx) -> u64 {
-        base_cases(ctx) + graph_cases(ctx)
+        base_cases(ctx) + graph_cases(ctx) + deferred_cases(ctx)
     }
     fn describe(&self, ctx: &Ctx, idx: u64) -> Value {
         let c = make_case(ctx, idx);
@@ -1231,6 +1724,9 @@ impl Check for C19Check {
         let case = make_case(ctx, idx);
         if ctx.verbose {
             eprintln!("{}\nkind {:?} notes {:?}\nprefix: {}", case.cfg.text, case.kind, case.notes, render_hist(&case.prefix));
+            if log::set_logger(&MACRO_LOG).is_ok() {
+                log::set_max_level(log::LevelFilter::Info);
+            }
         }
         let mut sim = match ISim::new(&case.cfg.text) {
             Ok(s) => s,
@@ -1243,8 +1739,42 @@ impl Check for C19Check {
             }
         };
         out.inc("configs");
-        sim.run(&case.prefix);
+        if let Some(d) = &case.deferred {
+            // counted here: these cases may end in the open finding's signature before the evidence section
+            if d.tail_play[case.play_id] && d.pauses[case.play_id] <= 1 {
+                out.inc("deferred_played_macro_stopped_within_1ms_of_final_play_tap");
+            }
+            if d.shape == PlayShape::TapDance && !case.cfg.recorded_delays && d.tail_play[case.play_id] {
+                out.inc("deferred_tap_dance_final_play_tap_with_constant_pacing");
+            }
+        }
+        // deferred-play family: an endless chain of short replays has moments without a replay state,
+        // so the last ticks of the prefix (a long wait) are watched one by one
+        let mut prefix_watch_saw_replay = false;
+        let mut prefix_watch_ep0 = 0;
+        match (case.deferred.is_some(), case.prefix.last()) {
+            (true, Some(Ev::T(n))) if *n > 400 => {
+                sim.run(&case.prefix[..case.prefix.len() - 1]);
+                let watch = 60 + 2 * case.cfg.play_t as u64;
+                sim.tick(*n as u64 - watch);
+                let n0 = sim.outs.len();
+                prefix_watch_ep0 = sim.ended_with_pending;
+                for _ in 0..watch {
+                    sim.tick(1);
+                    prefix_watch_saw_replay |= sim.k.dynamic_macro_replay_state.is_some();
+                }
+                prefix_watch_saw_replay |= sim.outs.len() != n0;
+            }
+            _ => sim.run(&case.prefix),
+        }
         // ---- state observations after the prefix
+        if sim.runaway {
+            let late_stored = if case.deferred.is_some() { late_tail_macros(&case, &case.stored.keys().copied().collect::<Vec<_>>()) } else { vec![] };
+            // (the open finding, see below: replay states kept ending with events still pending)
+            let sig = if case.deferred.is_some() && sim.ended_with_pending >= 20 { "C19:recursive-replay:deferred-play-fires-after-replay-state-is-gone" } else { "C19:replay-never-ends" };
+            out.violate(sig, format!("a replay started during the recording phase goes on for ever (more than {RUNAWAY_OUTPUTS} outputs)"), witness(&case, None, json!({"macros_whose_final_play_tap_fires_after_the_replay_state_is_gone": late_stored})));
+            return out;
+        }
         if sim.k.dynamic_macro_record_state.is_some() {
             if case.kind == Kind::Limit {
                 out.violate("C19:recording-exceeds-limit", format!("recording still running after typing far beyond dynamic-macro-max-presses {}", case.cfg.max_presses), witness(&case, None, json!({"max_presses": case.cfg.max_presses})));
@@ -1253,34 +1783,110 @@ impl Check for C19Check {
             }
             return out;
         }
-        if sim.k.dynamic_macro_replay_state.is_some() {
-            out.violate("C19:replay-never-ends", "a replay started during the recording phase is still running after the settle time", witness(&case, None, json!(null)));
+        let mut prefix_replay_running = sim.k.dynamic_macro_replay_state.is_some() || sim.runaway;
+        let mut late_stored: Vec<usize> = vec![];
+        if case.deferred.is_some() {
+            prefix_replay_running |= prefix_watch_saw_replay;
+            late_stored = late_tail_macros(&case, &case.stored.keys().copied().collect::<Vec<_>>());
+        }
+        if prefix_replay_running {
+            // deferred-play family: a stored macro whose final play tap fires after the replay state has
+            // gone and that was played live (the open finding, see `late_tail_macros`)
+            let sig = if case.deferred.is_some() && sim.ended_with_pending > prefix_watch_ep0 { "C19:recursive-replay:deferred-play-fires-after-replay-state-is-gone" } else { "C19:replay-never-ends" };
+            out.violate(sig, "a replay started during the recording phase is still running after the settle time", witness(&case, None, json!({"macros_whose_final_play_tap_fires_after_the_replay_state_is_gone": late_stored})));
             return out;
         }
         let stored_in_kanata = sim.k.dynamic_macros.get(&(case.play_id as u16)).map(|v| v.len());
+        if ctx.verbose {
+            for (id, items) in sim.k.dynamic_macros.iter() {
+                eprintln!("  stored by kanata: macro {id}: {items:?}");
+            }
+            for (id, st) in case.stored.iter() {
+                eprintln!("  harness bookkeeping: macro {id}: {}", st.evs.iter().map(|e| format!("{}{}+{}", if e.press { "P" } else { "R" }, code_name(e.code), e.gap)).collect::<Vec<_>>().join(" "));
+            }
+        }
         let anchor = sim.outs.len();
         let it0 = sim.it;
         // ---- the model's expansion of the judged play (harness bookkeeping only)
-        let (model_typed, model_fs) = expand(&case.stored, case.play_id);
-        let mut bound = replay_bound(&case.stored, case.play_id);
+        let on_release = case.cfg.play_shape.on_release();
+        let lat = case.cfg.play_t;
+        let (model_typed, model_fs) = expand_shape(&case.stored, case.play_id, on_release);
+        let bound_of = |id: usize| if on_release { replay_bound_shape(&case.stored, id, lat) } else { replay_bound(&case.stored, id) };
+        let mut bound = bound_of(case.play_id);
         let mut allowed_markers = marker_presses(&model_typed);
-        let interrupt = case.graph.as_ref().and_then(|g| g.interrupt);
+        let pc = play_code(case.play_id);
+        let mut interrupt = case.graph.as_ref().and_then(|g| g.interrupt);
+        // deferred-play family: macros replayed in this case whose recording ends with a play tap that
+        // fires only after the finished replay's state has gone (see `late_tail_macros`)
+        let mut late: Vec<usize> = vec![];
+        let mut probe_offset = None;
+        if let Some(d) = &case.deferred {
+            late = late_tail_macros(&case, &model_fs.instances.keys().copied().collect::<Vec<_>>());
+            if let Some((k, z)) = d.end_probe {
+                // measure the end of the judged replay in a run of its own, then aim at it
+                let mut m = match ISim::new(&case.cfg.text) {
+                    Ok(m) => m,
+                    Err(e) => {
+                        out.inconclusive = Some(e);
+                        return out;
+                    }
+                };
+                m.run(&case.prefix);
+                m.event(pc, KeyValue::Press);
+                m.tick(d.tap_gap as u64);
+                m.event(pc, KeyValue::Release);
+                let mut seen = false;
+                let mut end = None;
+                for t in 0..case.wait {
+                    m.tick(1);
+                    let running = m.k.dynamic_macro_replay_state.is_some();
+                    seen |= running;
+                    if seen && !running {
+                        end = Some(t + 1);
+                        break;
+                    }
+                }
+                if let Some(e) = end {
+                    interrupt = Some((e.saturating_sub(k), z));
+                    probe_offset = Some(k);
+                }
+            }
+            if !late.is_empty() {
+                out.inc("deferred_final_play_tap_fires_after_replay_state_is_gone");
+            }
+        }
         if let Some((_, z)) = interrupt {
             // a play key tapped physically while the replay runs is nested into it wherever the replay
             // happens to be (or starts a replay of its own afterwards); it is refused if that macro is
             // being replayed. Either way no more than one further expansion of it may be replayed.
-            let (zt, _) = expand(&case.stored, z);
+            let (zt, zfs) = expand_shape(&case.stored, z, on_release);
             let zm = marker_presses(&zt);
             for i in 0..3 {
                 allowed_markers[i] += zm[i];
             }
-            bound += replay_bound(&case.stored, z);
+            bound += bound_of(z);
+            if case.deferred.is_some() {
+                for m in late_tail_macros(&case, &zfs.instances.keys().copied().collect::<Vec<_>>()) {
+                    if !late.contains(&m) {
+                        late.push(m);
+                    }
+                }
+            }
         }
         // ---- play
-        let pc = play_code(case.play_id);
+        let ep0 = sim.ended_with_pending;
+        sim.max_queue = 0;
         sim.event(pc, KeyValue::Press);
+        if let Some(d) = &case.deferred {
+            // the play key is tapped: its shape fires at or after the release
+            sim.tick(d.tap_gap as u64);
+            sim.event(pc, KeyValue::Release);
+        }
         let mut ended_after = None;
         let mut interrupted_running = false;
+        // a plain play key starts the replay within the first tick; a deferred one some time after the release
+        let mut seen_running = case.deferred.is_none();
+        let fire_lag = if case.deferred.is_some() { 6 + lat } else { 0 };
         for t in 0..case.wait {
             if let Some((at, z)) = interrupt {
                 if t == at {
@@ -1292,15 +1898,19 @@ impl Check for C19Check {
                 }
             }
             sim.tick(1);
-            if ended_after.is_none() && sim.k.dynamic_macro_replay_state.is_none() && interrupt.map(|(at, _)| t > at).unwrap_or(true) {
+            let running = sim.k.dynamic_macro_replay_state.is_some();
+            seen_running |= running;
+            if ended_after.is_none() && !running && seen_running && interrupt.map(|(at, _)| t > at + fire_lag).unwrap_or(true) {
                 ended_after = Some(t + 1);
             }
         }
-        let still_replaying = sim.k.dynamic_macro_replay_state.is_some();
+        let still_replaying = sim.k.dynamic_macro_replay_state.is_some() || sim.runaway;
         // the play key is still held: its own witness key is legitimately down
         let own_witness = code_name(osc(PLAY_WITNESS[case.play_id]));
         let down_after_replay: Vec<String> = sim.down.iter().filter(|k| **k != own_witness).cloned().collect();
-        sim.event(pc, KeyValue::Release);
+        if case.deferred.is_none() {
+            sim.event(pc, KeyValue::Release);
+        }
         sim.tick(case.cfg.max_timeout as u64 + 60);
         for c in &case.held_at_play {
             sim.event(*c, KeyValue::Release);
@@ -1311,29 +1921,45 @@ impl Check for C19Check {
         out.count("internal_ms_run_inside_replays", sim.it.saturating_sub(it0));
         // ---- play graph: no macro is replayed more often than the graph without its recursive edges allows
         let mut observed_markers = [0u32; 3];
-        if case.kind == Kind::Graph {
+        // Open finding on the unchanged tree (findings/C19-deferred-play-after-replay-end.md): the guard
+        // lives in the replay state, which ends when the last item has been handed to kanata's event
+        // queue, not when that event and what it triggers have been processed. Observed precondition,
+        // form 1: during the judged replay a replay state ended while the event queue still held events
+        // or a tap-hold / tap-dance decision was pending. Form 2: a play key was tapped physically during
+        // the replay and the event queue grew to 3 or more events (replayed events are processed two
+        // or more ticks after they were handed over: a nested macro's end marker or the end of the
+        // replay state can overtake them). Every other over-replay keeps its own signature.
+        let late_sig = "C19:recursive-replay:deferred-play-fires-after-replay-state-is-gone";
+        let held_back_sig = "C19:recursive-replay:play-key-pressed-during-replay:replayed-events-held-back-in-event-queue";
+        let ended_with_pending = sim.ended_with_pending > ep0;
+        let held_back = interrupt.is_some() && sim.max_queue >= 3;
+        if case.graph.is_some() {
             for (i, m) in MARKER_OUT.iter().enumerate() {
                 let name = code_name(osc(m));
                 observed_markers[i] = replay.iter().filter(|o| o.down && !o.other && o.name == name).count() as u32;
             }
             let over: Vec<usize> = (0..3).filter(|i| observed_markers[*i] > allowed_markers[*i]).collect();
             if !over.is_empty() {
+
                 // structural class: the refused (recursive) edge of the model that leads into an over-replayed macro
                 let mut classes: Vec<Refusal> = model_fs.refusals.iter().filter(|(_, m)| over.contains(m)).map(|(c, _)| *c).collect();
                 classes.sort();
+                let suffix = if case.deferred.is_some() { ":deferred-play-key" } else { "" };
                 let sig = match (classes.first(), interrupt) {
+                    _ if ended_with_pending => late_sig.to_string(),
+                    _ if held_back => held_back_sig.to_string(),
                     (_, Some((_, z))) => {
                         // the physically pressed play key is nested wherever the replay happens to be:
                         // class by whether either expansion has a recursive edge at all
-                        let (_, zfs) = expand(&case.stored, z);
+                        let (_, zfs) = expand_shape(&case.stored, z, on_release);
                         if model_fs.refusals.is_empty() && zfs.refusals.is_empty() {
-                            "C19:macro-replayed-too-often:no-recursive-edge".to_string()
+                            format!("C19:macro-replayed-too-often:no-recursive-edge{suffix}")
                         } else {
-                            "C19:recursive-replay:play-key-pressed-during-replay".to_string()
+                            format!("C19:recursive-replay:play-key-pressed-during-replay{suffix}")
                         }
                     }
-                    (Some(c), None) => format!("C19:recursive-replay:{}", c.name()),
-                    (None, None) => "C19:macro-replayed-too-often:no-recursive-edge".to_string(),
+                    (Some(c), None) => format!("C19:recursive-replay:{}{suffix}", c.name()),
+                    (None, None) => format!("C19:macro-replayed-too-often:no-recursive-edge{suffix}"),
                 };
                 let m = over[0];
                 out.violate(
@@ -1346,23 +1972,23 @@ impl Check for C19Check {
                         allowed_markers,
                         if still_replaying { "still running at the end of the wait".to_string() } else { format!("ended after {:?} ticks", ended_after) }
                     ),
-                    witness(&case, None, json!({"outputs_so_far": replay.len(), "first_outputs": replay.iter().take(60).map(|o| o.short()).collect::<Vec<_>>(), "model_expansion": render_typed(&model_typed), "refused_in_model": model_fs.refusals.iter().map(|(c, m)| format!("{}:{m}", c.name())).collect::<Vec<_>>(), "bound_ticks": bound, "interrupt": interrupt})),
+                    witness(&case, None, json!({"outputs_so_far": replay.len(), "first_outputs": replay.iter().take(60).map(|o| o.short()).collect::<Vec<_>>(), "model_expansion": render_typed(&model_typed), "refused_in_model": model_fs.refusals.iter().map(|(c, m)| format!("{}:{m}", c.name())).collect::<Vec<_>>(), "bound_ticks": bound, "interrupt": interrupt, "macros_whose_final_play_tap_fires_after_the_replay_state_is_gone": late, "replay_state_ended_with_events_pending": ended_with_pending, "longest_event_queue": sim.max_queue})),
                 );
                 return out;
             }
         }
         if still_replaying {
-            out.violate("C19:replay-never-ends", format!("the replay is still running {} ticks after the play key (bound derived from the recorded lengths: {bound})", case.wait), witness(&case, None, json!({"outputs_so_far": replay.len(), "bound_ticks": bound})));
+            out.violate(if ended_with_pending { late_sig } else { "C19:replay-never-ends" }, format!("the replay is still running {} ticks after the play key (bound derived from the recorded lengths: {bound})", case.wait), witness(&case, None, json!({"outputs_so_far": replay.len(), "bound_ticks": bound})));
             return out;
         }
         if let Some(e) = ended_after {
             if e as u64 > bound {
-                out.violate("C19:replay-exceeds-bound", format!("the replay took {e} ticks; the recorded lengths bound it by {bound}"), witness(&case, None, json!({"outputs_so_far": replay.len(), "bound_ticks": bound, "interrupt": interrupt})));
+                out.violate(if ended_with_pending { late_sig } else { "C19:replay-exceeds-bound" }, format!("the replay took {e} ticks; the recorded lengths bound it by {bound}"), witness(&case, None, json!({"outputs_so_far": replay.len(), "bound_ticks": bound, "interrupt": interrupt})));
                 return out;
             }
             out.inc("replays_ended_within_bound");
         }
-        if case.kind == Kind::Graph && interrupt.is_none() {
+        if case.graph.is_some() && interrupt.is_none() && late.is_empty() && !ended_with_pending {
             if let Some(m) = (0..3).find(|i| observed_markers[*i] < allowed_markers[*i]) {
                 out.violate(
                     "C19:nested-play-missing",
@@ -1381,7 +2007,10 @@ impl Check for C19Check {
         if ambiguous_tail {
             out.inc("time_sensitive_with_several_keys_down_at_stop");
         }
-        let judge_relational = (!case.cfg.time_sensitive || case.cfg.recorded_delays) && !ambiguous_tail && interrupt.is_none();
+        // deferred-play family: where a tap-dance's play request lands among the following events is a
+        // matter of timing, and so is everything once a play request fires after the replay state has gone
+        let deferred_ok = case.deferred.as_ref().map(|d| d.shape != PlayShape::TapDance && late.is_empty() && !ended_with_pending && !model_fs.unpaired_play_release).unwrap_or(true);
+        let judge_relational = (!case.cfg.time_sensitive || case.cfg.recorded_delays) && !ambiguous_tail && interrupt.is_none() && deferred_ok;
         let mut verdict: Option<Verdict> = None;
         let mut limit_cut = None;
         if judge_relational {
@@ -1453,6 +2082,8 @@ impl Check for C19Check {
             return out;
         }
         // ---- evidence
+        out.max("outputs_in_one_run", sim.outs.len() as u64);
+        out.max("internal_ms_in_one_run", sim.it);
         out.inc(&format!("kind_{:?}", case.kind));
         out.inc(if case.cfg.recorded_delays { "delay_recorded" } else { "delay_constant" });
         out.max("recorded_events", rec_len as u64);
@@ -1489,7 +2120,84 @@ impl Check for C19Check {
                 out.inc("self_play_inside_own_recording");
             }
         }
-        if let Some(g) = &case.graph {
+        if let (Some(g), Some(d)) = (&case.graph, &case.deferred) {
+            out.inc("deferred_cases");
+            out.inc(match d.shape {
+                PlayShape::TapHold => "deferred_shape_tap_hold_tap",
+                PlayShape::Vkey => "deferred_shape_on_release_vkey",
+                PlayShape::TapDance => "deferred_shape_tap_dance",
+                PlayShape::Plain => "deferred_shape_plain",
+            });
+            out.count("deferred_marker_counts_checked", 3);
+            out.count("deferred_nested_instances_counted", (model_fs.total_instances().saturating_sub(1)) as u64);
+            // a recording that ends with a play tap, as stored (harness bookkeeping)
+            let ends_with_play = |m: usize| case.stored.get(&m).map(|s| s.tail.is_empty() && s.evs.last().map(|e| !e.press && is_play_key(e.code).is_some()).unwrap_or(false)).unwrap_or(false);
+            out.count("deferred_recordings_ending_with_a_play_tap", (0..3).filter(|m| ends_with_play(*m)).count() as u64);
+            let top_tail_empty = st.map(|s| s.tail.is_empty()).unwrap_or(true);
+            if ends_with_play(case.play_id) {
+                out.inc("deferred_played_macro_ends_with_a_play_tap");
+                out.inc(&format!("deferred_pause_after_final_play_tap_{}", match d.pauses[case.play_id] {
+                    0..=1 => "1ms",
+                    2..=3 => "2_3ms",
+                    4..=12 => "8_12ms",
+                    _ => "long",
+                }));
+                // the very last event of the whole replay fires a play request: it arrives after the last item
+                let at_end: Vec<Refusal> = model_fs.refusals.iter().zip(model_fs.refusal_at.iter()).filter(|(_, at)| **at == model_typed.len()).map(|((c, _), _)| *c).collect();
+                if top_tail_empty && !at_end.is_empty() {
+                    out.inc("deferred_refused_play_request_after_last_replayed_event");
+                    if at_end.contains(&Refusal::SelfAtTop) {
+                        out.inc("deferred_refused_after_last_event_self");
+                    }
+                    if at_end.iter().any(|c| *c != Refusal::SelfAtTop) {
+                        out.inc("deferred_refused_after_last_event_through_nested_macro");
+                    }
+                } else if top_tail_empty {
+                    out.inc("deferred_accepted_play_request_after_last_replayed_event");
+                }
+            }
+            if interrupt.is_some() {
+                out.inc("deferred_physical_play_around_end_of_replay");
+                if interrupted_running {
+                    out.inc("deferred_physical_play_while_replay_running");
+                    if probe_offset.map(|k| k <= 6).unwrap_or(false) {
+                        out.inc("deferred_physical_play_within_6_ticks_of_end_while_running");
+                    }
+                } else {
+                    out.inc("deferred_physical_play_after_replay_ended");
+                }
+            } else if verdict.is_some() {
+                out.inc("deferred_replays_equal_to_expansion");
+            } else if late.is_empty() {
+                out.inc("deferred_replays_judged_by_counts");
+            }
+            let mut classes: Vec<Refusal> = model_fs.refusals.iter().map(|(c, _)| *c).collect();
+            classes.sort();
+            classes.dedup();
+            for c in &classes {
+                out.inc(match c {
+                    Refusal::SelfNested => "deferred_refused_self_nested",
+                    Refusal::BackToNestedAncestor => "deferred_refused_back_to_nested_ancestor",
+                    Refusal::SelfAtTop => "deferred_refused_self_at_top",
+                    Refusal::BackToTop => "deferred_refused_back_to_top",
+                });
+            }
+            out.max("deferred_nested_depth", model_fs.max_depth as u64);
+            out.tag(format!(
+                "Deferred|{}|{}|adj{:?}|top{}|tail{:?}|pause{:?}|probe{:?}|{}|d{}|n{}",
+                d.shape.name(),
+                if case.cfg.recorded_delays { "rec" } else { "const" },
+                g.adj,
+                g.top,
+                d.tail_play,
+                d.pauses.map(|p| p.min(40)),
+                d.end_probe.map(|(k, z)| (k / 4, z)),
+                classes.iter().map(|c| c.name()).collect::<Vec<_>>().join(","),
+                model_fs.max_depth,
+                model_fs.total_instances()
+            ));
+        }
+        if let (Some(g), None) = (&case.graph, &case.deferred) {
             out.inc("graph_cases");
             if g.clean {
                 out.inc("graph_cases_realised_exactly");
@@ -1561,13 +2269,13 @@ impl Check for C19Check {
                 ended_after.map(|e| e / 16)
             ));
         }
-        if idx % 1500 < 6 || (case.kind == Kind::Graph && idx % 400 == 7) {
+        if idx % 1500 < 6 || (case.graph.is_some() && idx % 400 == 7) {
             out.sample = Some(witness(&case, verdict.as_ref(), json!({"replay_ended_after_ticks": ended_after})));
         }
         out
     }
     fn rule(&self) -> String {
-        "case = one configuration (5 typing keys with plain / output-chord / multi / modifier actions on two layers, a layer-while-held key, 3 record keys, 3 play keys, stop and two stop-truncate keys, optionally each control key also outputs a witness key; 1/3 of the cases add tap-hold (3 variants), one-shot and tap-dance keys; both replay-delay behaviours) and one history that records macros and finally plays one: basic (keys held across start and stop, stop by stop key / truncation 1-9 / record key again / another record key), re-record, nested (B plays A, self-play, mutual, twice+self, A re-recorded later), size limit 0-5 exceeded, keys or the layer key physically held while playing, time-sensitive. The replay's OS stream after the play key is compared with a twin run with the identical prefix that types the recorded portion again (harness bookkeeping; nested plays expanded in place, a macro never inside itself; keys still down at stop released at the end and compared as a multiset): time-insensitive configs by order, time-sensitive configs with `recorded` delays by order and kanata-internal millisecond (gaps >= 1 ms in the recorded section), time-sensitive with `constant` only by the invariants. Invariants always: the replay ends within the wait time, nothing is down when it has ended, nothing down after everything is released, the recording has stopped by itself after the limit was exceeded and the replay equals typing the first 2*limit..2*limit+3 events. Every replay (all families) must end within a bound derived from the recorded lengths only: 6 ticks per event and per macro boundary of the model's expansion + the recorded pauses + 100. Play-graph family (enumerated completely in both tiers: 512 graphs 'recording of macro i contains a tap of play key j' over the 3 macros x 3 top-level plays x {constant, recorded}, realised exactly; plus 2 (quick) / 22 (thorough) seeded variants per graph and top with a macro never recorded, truncating stops, repeated taps and a second play key tapped physically during the judged replay): every recording starts with a tap of the macro's own marker key (f19/f20/f21, produced by nothing else); the number of marker presses in the replay must equal the number of times the macro occurs in the expansion of the play graph without its recursive edges (a play key of a macro that is being replayed - the played one or a nested one - is refused: self edge at the top, self edge in a nested macro, back edge to the top, back edge to a nested ancestor); with a physical play key during the replay: at most the expansion of the judged play plus one expansion of the other macro, termination within the sum of both bounds, nothing left down. Non-trivial = a replay that produced output; distinct = (kind, delay behaviour, action shapes, stop modes, recorded length, tail size, replay duration class), play graphs: (delay, graph, top, physical play, refusal classes, depth, instances).".into()
+        "case = one configuration (5 typing keys with plain / output-chord / multi / modifier actions on two layers, a layer-while-held key, 3 record keys, 3 play keys, stop and two stop-truncate keys, optionally each control key also outputs a witness key; 1/3 of the cases add tap-hold (3 variants), one-shot and tap-dance keys; both replay-delay behaviours) and one history that records macros and finally plays one: basic (keys held across start and stop, stop by stop key / truncation 1-9 / record key again / another record key), re-record, nested (B plays A, self-play, mutual, twice+self, A re-recorded later), size limit 0-5 exceeded, keys or the layer key physically held while playing, time-sensitive. The replay's OS stream after the play key is compared with a twin run with the identical prefix that types the recorded portion again (harness bookkeeping; nested plays expanded in place, a macro never inside itself; keys still down at stop released at the end and compared as a multiset): time-insensitive configs by order, time-sensitive configs with `recorded` delays by order and kanata-internal millisecond (gaps >= 1 ms in the recorded section), time-sensitive with `constant` only by the invariants. Invariants always: the replay ends within the wait time, nothing is down when it has ended, nothing down after everything is released, the recording has stopped by itself after the limit was exceeded and the replay equals typing the first 2*limit..2*limit+3 events. Every replay (all families) must end within a bound derived from the recorded lengths only: 6 ticks per event and per macro boundary of the model's expansion + the recorded pauses + 100. Play-graph family (enumerated completely in both tiers: 512 graphs 'recording of macro i contains a tap of play key j' over the 3 macros x 3 top-level plays x {constant, recorded}, realised exactly; plus 2 (quick) / 22 (thorough) seeded variants per graph and top with a macro never recorded, truncating stops, repeated taps and a second play key tapped physically during the judged replay): every recording starts with a tap of the macro's own marker key (f19/f20/f21, produced by nothing else); the number of marker presses in the replay must equal the number of times the macro occurs in the expansion of the play graph without its recursive edges (a play key of a macro that is being replayed - the played one or a nested one - is refused: self edge at the top, self edge in a nested macro, back edge to the top, back edge to a nested ancestor); with a physical play key during the replay: at most the expansion of the judged play plus one expansion of the other macro, termination within the sum of both bounds, nothing left down. Deferred-play family (512 graphs x 3 top-level plays x 8 (quick) / 48 (thorough) variants; variant mod 8: tap-hold tap constant/recorded, on-release virtual key constant/recorded, tap-dance constant/recorded, two seeded disturbed ones): play keys and their effect-free twins fire on release (tap-hold tap, tap-repress timeout 0 in 3/4 of the configs), two ticks after the release (`on-release tap-vkey`) or after a timeout (tap-dance 20/30/50 ms; only the played macro contains a tap then); play keys are tapped 9+ ms after the previous event with nothing in between, replays they start live are waited for; 2/3 of the recordings end with their last play tap (typing keys released before it) and are stopped 1 (on-release shape, played macro, recorded last) / 2 / 3 / 8 / 34 ms (tap-hold: 9 / 12 / 34; tap-dance: timeout + 15) after it, plus the time a live replay takes. The model nests a deferred play where the play key's release stands; marker counts must equal the model's (refused: the macro is still being replayed, including requests that arrive after the last replayed event of the played macro or of a nested one), the replay must end within the bound (+ the firing delay per request), and for tap-hold / on-release shapes the OS stream must equal the twin's, the play keys' witness outputs compared by number only. Disturbed variants: a play key tapped physically 0..12 ticks before the end of the judged replay as measured in a run without it (upper bounds, as above); the played macro stopped 1 ms after its final play tap. Non-trivial = a replay that produced output; distinct = (kind, delay behaviour, action shapes, stop modes, recorded length, tail size, replay duration class), play graphs: (delay, graph, top, physical play, refusal classes, depth, instances); deferred: (shape, delay, graph, top, which recordings end with a play tap, pauses, probe offset class, refusal classes, depth, instances).".into()
     }
     fn assumptions(&self) -> Vec<String> {
         vec![
@@ -1577,6 +2285,9 @@ impl Check for C19Check {
             "no recording is active while the judged play runs; macros with cancel-on-press are not in these configurations".into(),
             "play graphs: 'a macro never replays itself recursively' is read as: a play key met while that macro is being replayed (as the played macro or nested anywhere on the current chain) replays nothing, and the same macro may be replayed again once its nested replay is over (X containing two taps of play Y replays Y twice); time-insensitive configurations only".into(),
             "play graphs: where a play key tapped physically during a replay takes effect inside the running replay is not specified, so those cases are judged by upper bounds only (marker counts <= judged expansion + one expansion of the other macro, termination within the sum of both bounds, nothing down afterwards), not by the relational comparison".into(),
+            "deferred play keys: a play key that fires on release (or later) nests the played macro where its release stands; the request counts as made by the macro whose recording contains the tap, so it is refused while that macro or the played one is being replayed - also when the tap is the very last recorded event (the guide: 'dynamic macros cannot recurse'). Play keys are tapped (never held into a stop, never overlapped with typing), 9+ ms after the previous event, and a replay they start live is over before the next event or the stop: replayed tap-hold taps and virtual-key taps share kanata's event queue with what is typed meanwhile and would delay the stop key (assumption 1)".into(),
+            "deferred play keys: tap-dance play keys are judged by marker counts, termination and the invariants only (where the request lands among later events depends on the pacing), and only the played macro contains one; the play keys' own witness outputs are compared by number, not by position (with a tap-repress timeout not at all: two quick taps overlap)".into(),
+            "deferred play keys: the under-count clause and the relational comparison are not applied when the harness's bookkeeping says the final play tap fires after the replay state has gone (pause recorded behind it, or 5 ms constant pacing, shorter than the shape's firing delay) or when a replay state was seen to end with events still pending - what is replayed then depends on timing; over-replay, termination and 'nothing left down' are always judged. Over-replays in runs where a replay state ended with events pending in kanata's event queue (or, with a physical play tap, the queue reached 3 events) are the open finding's two signatures; every other over-replay is live".into(),
             "the termination bound is an upper bound written from the documentation (constant pacing of a few ms per event, or the recorded pauses), deliberately loose: 6 ticks per replayed event and macro boundary + all recorded pauses + 100".into(),
         ]
     }
@@ -1613,6 +2324,35 @@ impl Check for C19Check {
             ("graph_acyclic_nested", g(150, 1_200)),
             ("graph_physical_play_nested_into_running_replay", g(300, 4_000)),
             ("graph_plays_of_unrecorded_macro", g(250, 3_000)),
+            // deferred-play family (8 variants per graph and top in quick, 48 in thorough)
+            ("deferred_cases", g(9_000, 54_000)),
+            ("deferred_shape_tap_hold_tap", g(3_500, 21_000)),
+            ("deferred_shape_on_release_vkey", g(3_200, 19_000)),
+            ("deferred_shape_tap_dance", g(2_000, 12_000)),
+            ("deferred_marker_counts_checked", g(27_000, 160_000)),
+            ("deferred_nested_instances_counted", g(15_000, 90_000)),
+            ("deferred_replays_equal_to_expansion", g(5_000, 30_000)),
+            ("deferred_recordings_ending_with_a_play_tap", g(14_000, 84_000)),
+            ("deferred_played_macro_ends_with_a_play_tap", g(5_500, 33_000)),
+            // the play request arrives after the last replayed event ...
+            ("deferred_refused_play_request_after_last_replayed_event", g(3_000, 18_000)),
+            ("deferred_refused_after_last_event_self", g(1_500, 9_000)),
+            ("deferred_refused_after_last_event_through_nested_macro", g(1_300, 8_000)),
+            ("deferred_accepted_play_request_after_last_replayed_event", g(2_500, 15_000)),
+            // ... with short and long pauses recorded behind it
+            ("deferred_pause_after_final_play_tap_2_3ms", g(500, 3_000)),
+            ("deferred_pause_after_final_play_tap_8_12ms", g(1_100, 6_500)),
+            ("deferred_pause_after_final_play_tap_long", g(3_500, 21_000)),
+            ("deferred_played_macro_stopped_within_1ms_of_final_play_tap", g(200, 1_200)),
+            ("deferred_tap_dance_final_play_tap_with_constant_pacing", g(1_000, 6_000)),
+            ("deferred_final_play_tap_fires_after_replay_state_is_gone", g(1_200, 7_000)),
+            ("deferred_refused_self_at_top", g(3_500, 21_000)),
+            ("deferred_refused_self_nested", g(3_200, 19_000)),
+            ("deferred_refused_back_to_top", g(3_200, 19_000)),
+            ("deferred_refused_back_to_nested_ancestor", g(1_100, 6_500)),
+            ("deferred_physical_play_around_end_of_replay", g(1_400, 8_400)),
+            ("deferred_physical_play_within_6_ticks_of_end_while_running", g(600, 3_600)),
+            ("deferred_physical_play_after_replay_ended", g(150, 900)),
         ]
     }
 }
